@@ -5,6 +5,7 @@
   R01.5    every explicit panic of the evaluator is listed with the checker obligation that discharges it
   R01.6    unsigned subtraction / signed overflow in builtins is guarded by a dominating comparison or listed with a reason
   R01.7    no data-length recursion in compiler-generated drop glue (list-shaped owning links need an iterative Drop)
+  R01.8    small-form integer arithmetic that can overflow ((i64::MIN, -1), -i64::MIN) is excluded by an earlier match arm (= R14.2)
 """
 import re
 from .lib import mirq, astq, natives, guards, report
@@ -231,3 +232,8 @@ def run(ctx):
                     if not ok:
                         r7.fail('%s/%s' % (aid, f['name']), a['span'], 'self-linked owning pointer without a Drop impl: dropping a value of length n recurses n deep in drop glue and overflows the native stack (process abort)')
     r7.need(1)
+
+    # ---------------- R01.8 machine arithmetic of the small integer form (shared with R14.2): an overflow there is a panic
+    from . import c14
+    r8 = ctx.rule('R01.8', 'small-form integer arithmetic that can overflow is excluded by an earlier arm (shared with R14.2)')
+    c14.small_form_arith(ctx, r8)
